@@ -369,6 +369,20 @@ func atom(e *Expr) *Expr {
 	return e
 }
 
+func startsWithParen(e *Expr) bool {
+	for e != nil {
+		switch e.K {
+		case "paren":
+			return true
+		case "index", "indexe", "call", "method", "bin":
+			e = e.A
+		default:
+			return false
+		}
+	}
+	return false
+}
+
 // ---------- expression wrappers ----------
 // wrapVal: any context; wrapCond: result must stay truthy when e == 1; wrapNum: must stay 1.
 func (g *gen) wrapVal(e *Expr, noConcat bool) *Expr {
@@ -464,7 +478,7 @@ func (g *gen) shape(fx *fctx, e *Expr, isCall, isFault, noConcat bool, depth int
 	}
 	switch pick {
 	case 0:
-		if isCall {
+		if isCall && !startsWithParen(e) { // a statement must not begin with "(": it would continue the previous one
 			return []*Stmt{{K: "call", Exprs: []*Expr{e}}}
 		}
 		fallthrough
